@@ -11,6 +11,19 @@ fn flags0() -> Flags {
     Flags { icase: false, multiline: false, dot_all: false, no_opt: false, unicode: false, unicode_sets: false }
 }
 
+/// The same with StartPredicate::StartAnchored.
+fn prog_anchored(insns: Vec<Insn>, loops: u32, groups: u32) -> CompiledRegex {
+    CompiledRegex {
+        insns,
+        brackets: Vec::new(),
+        start_pred: StartPredicate::StartAnchored,
+        loops,
+        groups,
+        group_names: Vec::new().into_boxed_slice(),
+        flags: flags0(),
+    }
+}
+
 fn prog(insns: Vec<Insn>, loops: u32, groups: u32) -> CompiledRegex {
     CompiledRegex {
         insns,
@@ -103,23 +116,28 @@ fn c02_pikevm_run_loop_step() {
 const NMAX: usize = 3;
 const BYTES: usize = 12;
 
-struct Hay {
-    h: [u32; NMAX],
+struct HayN<const N: usize, const B: usize> {
+    h: [u32; N],
     n: usize,
-    buf: [u8; BYTES],
-    off: [usize; NMAX + 1],
+    buf: [u8; B],
+    off: [usize; 4],
     len: usize,
 }
+type Hay = HayN<NMAX, BYTES>;
 
 fn any_hay(ascii_only: bool) -> Hay {
-    let mut h = [0u32; NMAX];
+    any_hay_n::<NMAX, BYTES>(ascii_only)
+}
+
+fn any_hay_n<const N: usize, const B: usize>(ascii_only: bool) -> HayN<N, B> {
+    let mut h = [0u32; N];
     let n: usize = kani::any();
-    kani::assume(n <= NMAX);
-    let mut buf = [0u8; BYTES];
-    let mut off = [0usize; NMAX + 1];
+    kani::assume(n <= N);
+    let mut buf = [0u8; B];
+    let mut off = [0usize; 4];
     let mut at = 0usize;
     let mut i = 0;
-    while i < NMAX {
+    while i < N {
         if i < n {
             let c: u32 = kani::any();
             kani::assume(c <= 0x10FFFF && !(c >= 0xD800 && c <= 0xDFFF));
@@ -150,7 +168,7 @@ fn any_hay(ascii_only: bool) -> Hay {
         off[i + 1] = at;
         i += 1;
     }
-    Hay { h, n, buf, off, len: at }
+    HayN { h, n, buf, off, len: at }
 }
 
 
@@ -215,41 +233,32 @@ fn c02_pikevm_loop1char_step() {
 // C09 through the PikeVM executor over an arbitrary deterministic engine
 // ------------------------------------------------------------------------------------------
 
-static mut ORACLE_END: [Option<usize>; BYTES + 1] = [None; BYTES + 1];
-static mut ORACLE_LEN: usize = 0;
-static mut ORACLE_CALLS_OK: bool = true;
+use crate::verif_oracle as vo;
 
 fn stub_pike_try_at_pos<'a: 'a, Input: InputIndexer, Dir: Direction>(
-    this: &mut MatchAttempter<'a, Input>,
+    _this: &mut MatchAttempter<'a, Input>,
     inp: Input,
     init_state: &mut State<Input::Position>,
     _dir: Dir,
 ) -> bool {
-    let off = inp.pos_to_offset(init_state.pos);
-    unsafe {
-        if inp.right_end() - inp.left_end() != ORACLE_LEN || init_state.ip != 0 {
-            ORACLE_CALLS_OK = false;
+    if init_state.ip != 0 {
+        unsafe {
+            vo::VERIF_ORACLE_CALLS_OK = false;
         }
-        match ORACLE_END[off] {
-            None => false,
-            Some(e) => match inp.try_move_right(inp.left_end(), e) {
-                Some(p) => {
-                    init_state.pos = p;
-                    true
-                }
-                None => {
-                    ORACLE_CALLS_OK = false;
-                    false
-                }
-            },
+    }
+    match vo::lookup(&inp, init_state.pos) {
+        Some(p) => {
+            init_state.pos = p;
+            true
         }
+        None => false,
     }
 }
 
-fn is_boundary(hy: &Hay, o: usize) -> bool {
+fn is_boundary<const N: usize, const B: usize>(hy: &HayN<N, B>, o: usize) -> bool {
     let mut i = 0;
     let mut r = false;
-    while i <= NMAX {
+    while i <= N {
         if i <= hy.n && hy.off[i] == o {
             r = true;
         }
@@ -261,40 +270,41 @@ fn is_boundary(hy: &Hay, o: usize) -> bool {
 /// Fill the oracle table with arbitrary ends: for each boundary offset o, None or Some(e) with
 /// o <= e <= len and e on a boundary.  Non-boundary offsets are never queried by correct code; they
 /// hold a poison value that makes the harness fail if used.
-fn any_oracle(hy: &Hay, only_at_zero: bool) {
-    let mut o = 0;
-    while o <= BYTES {
-        let v: Option<usize> = if o <= hy.len && is_boundary(hy, o) {
-            if kani::any() && !(only_at_zero && o != 0) {
-                let e: usize = kani::any();
-                kani::assume(e >= o && e <= hy.len && is_boundary(hy, e));
-                Some(e)
+fn any_oracle<const N: usize, const B: usize>(hy: &HayN<N, B>, only_at_zero: bool) {
+    // every entry starts as poison (static initialiser); only boundary offsets get a real (arbitrary) answer
+    let mut i = 0;
+    while i <= N {
+        if i <= hy.n {
+            let o = hy.off[i];
+            let v: Option<usize> = if kani::any() && !(only_at_zero && o != 0) {
+                let j: usize = kani::any();
+                kani::assume(j >= i && j <= hy.n);
+                Some(hy.off[j])
             } else {
                 None
+            };
+            unsafe {
+                vo::VERIF_ORACLE_END[o] = v;
             }
-        } else {
-            Some(BYTES + 7) // poison
-        };
-        unsafe {
-            ORACLE_END[o] = v;
         }
-        o += 1;
+        i += 1;
     }
     unsafe {
-        ORACLE_LEN = hy.len;
-        ORACLE_CALLS_OK = true;
+        vo::VERIF_ORACLE_HAYLEN = hy.len;
+        vo::VERIF_ORACLE_CALLS_OK = true;
+        vo::VERIF_ORACLE_ACTIVE = true;
     }
 }
 
 /// Reference: first match at or after cursor (boundary order).
-fn model_first(hy: &Hay, cursor: usize, anchored: bool) -> Option<(usize, usize)> {
+fn model_first<const N: usize, const B: usize>(hy: &HayN<N, B>, cursor: usize, anchored: bool) -> Option<(usize, usize)> {
     let mut i = 0;
     let mut res = None;
-    while i <= NMAX {
+    while i <= N {
         if res.is_none() && i <= hy.n && hy.off[i] >= cursor {
             let o = hy.off[i];
             if !anchored || o == cursor {
-                if let Some(e) = unsafe { ORACLE_END[o] } {
+                if let Some(e) = unsafe { vo::VERIF_ORACLE_END[o] } {
                     res = Some((o, e));
                 }
             }
@@ -304,10 +314,10 @@ fn model_first(hy: &Hay, cursor: usize, anchored: bool) -> Option<(usize, usize)
     res
 }
 
-fn next_boundary_after(hy: &Hay, o: usize) -> Option<usize> {
+fn next_boundary_after<const N: usize, const B: usize>(hy: &HayN<N, B>, o: usize) -> Option<usize> {
     let mut i = 0;
     let mut res = None;
-    while i <= NMAX {
+    while i <= N {
         if res.is_none() && i <= hy.n && hy.off[i] > o {
             res = Some(hy.off[i]);
         }
@@ -317,9 +327,9 @@ fn next_boundary_after(hy: &Hay, o: usize) -> Option<usize> {
 }
 
 macro_rules! c09_body {
-    ($exec:ty, $cr:expr, $anchored:expr, $ascii:expr) => {{
+    ($exec:ty, $cr:expr, $anchored:expr, $ascii:expr, $n:expr) => {{
     let anchored: bool = $anchored;
-    let hy = any_hay($ascii);
+    let hy = any_hay_n::<{ $n }, { 4 * $n }>($ascii);
     let text: &str = unsafe { core::str::from_utf8_unchecked(&hy.buf[..hy.len]) };
     any_oracle(&hy, anchored);
     let start: usize = kani::any();
@@ -332,7 +342,7 @@ macro_rules! c09_body {
     let mut count = 0usize;
     let mut done = false;
     let mut step = 0;
-    while step < NMAX + 3 {
+    while step < $n + 3 {
         let got = it.next();
         let want = match cursor {
             None => None,
@@ -362,34 +372,79 @@ macro_rules! c09_body {
     }
     assert!(done, "iteration must be exhausted after at most chars+1 matches");
     assert!(count <= hy.n + 1);
-    assert!(unsafe { ORACLE_CALLS_OK }, "every attempt sees the whole haystack from instruction 0 with a clean stack");
-    kani::cover!(count >= 2, "at least two matches");
-    kani::cover!(count == hy.n + 1 && hy.n >= 2, "an empty match at every position");
+    assert!(unsafe { vo::VERIF_ORACLE_CALLS_OK }, "every attempt sees the whole haystack from instruction 0 with a clean stack");
+    kani::cover!(anchored || count >= 2, "at least two matches (unanchored)");
+    kani::cover!(anchored || (count == hy.n + 1 && hy.n >= 1), "an empty match at every position (unanchored)");
+    kani::cover!(!anchored || count == 1, "the anchored match");
     kani::cover!(start > hy.len, "start beyond the end");
     core::mem::forget(it);
     }};
 }
 
 
-// @verif props=C09,C02 tier=quick timeout=2400 unwind=15 bound="haystack <= 3 symbolic scalars, arbitrary engine table, symbolic start, up to 6 next() calls; PikeVMExecutor" funcs="PikeVMExecutor::initial_position,next_match,pikevm::successful_match,exec::Matches::next"
+// @verif props=C09,C02 tier=quick timeout=2400 mem=16 unwind=7 bound="haystack <= 1 symbolic scalars, arbitrary engine table, symbolic start, up to 4 next() calls; PikeVMExecutor" funcs="PikeVMExecutor::initial_position,next_match,pikevm::successful_match,exec::Matches::next"
 // @verif stubs="pikevm::MatchAttempter::try_at_pos -> arbitrary deterministic table END[offset]"
 #[kani::proof]
-#[kani::unwind(15)]
+#[kani::unwind(7)]
 #[kani::stub(crate::pikevm::MatchAttempter::try_at_pos, stub_pike_try_at_pos)]
 fn c09_iter_pikevm_utf8() {
     let cr = prog(vec![Insn::Goal], 0, 0);
-    c09_body!(PikeVMExecutor<Utf8Input>, &cr, false, false);
+    c09_body!(PikeVMExecutor<Utf8Input>, &cr, false, false, 1);
     core::mem::forget(cr);
 }
 
-// @verif props=C09,C02 tier=quick timeout=2400 unwind=15 bound="as c09_iter_pikevm_utf8 with StartPredicate::StartAnchored (engine can only match at 0)" funcs="PikeVMExecutor::next_match (anchored branch)"
+// @verif props=C09,C02 tier=thorough timeout=5400 mem=16 unwind=8 bound="haystack <= 2 symbolic scalars, arbitrary engine table, symbolic start, up to 5 next() calls; PikeVMExecutor" funcs="PikeVMExecutor::initial_position,next_match,pikevm::successful_match,exec::Matches::next"
+// @verif stubs="pikevm::MatchAttempter::try_at_pos -> arbitrary deterministic table END[offset]"
+#[kani::proof]
+#[kani::unwind(8)]
+#[kani::stub(crate::pikevm::MatchAttempter::try_at_pos, stub_pike_try_at_pos)]
+fn c09_iter_pikevm_utf8_n2() {
+    let cr = prog(vec![Insn::Goal], 0, 0);
+    c09_body!(PikeVMExecutor<Utf8Input>, &cr, false, false, 2);
+    core::mem::forget(cr);
+}
+
+// @verif props=C09,C02 tier=quick timeout=2400 mem=16 unwind=7 bound="as c09_iter_pikevm_utf8 with StartPredicate::StartAnchored (engine can only match at 0)" funcs="PikeVMExecutor::next_match (anchored branch)"
 // @verif stubs="pikevm::MatchAttempter::try_at_pos -> table"
 #[kani::proof]
-#[kani::unwind(15)]
+#[kani::unwind(7)]
 #[kani::stub(crate::pikevm::MatchAttempter::try_at_pos, stub_pike_try_at_pos)]
 fn c09_iter_pikevm_anchored() {
-    let mut cr = prog(vec![Insn::Goal], 0, 0);
-    cr.start_pred = StartPredicate::StartAnchored;
-    c09_body!(PikeVMExecutor<Utf8Input>, &cr, true, false);
+    let cr = prog_anchored(vec![Insn::Goal], 0, 0);
+    c09_body!(PikeVMExecutor<Utf8Input>, &cr, true, false, 1);
+    core::mem::forget(cr);
+}
+
+// @verif props=C09,C02 tier=thorough timeout=5400 mem=16 unwind=8 bound="as c09_iter_pikevm_utf8 with StartPredicate::StartAnchored (engine can only match at 0)" funcs="PikeVMExecutor::next_match (anchored branch)"
+// @verif stubs="pikevm::MatchAttempter::try_at_pos -> table"
+#[kani::proof]
+#[kani::unwind(8)]
+#[kani::stub(crate::pikevm::MatchAttempter::try_at_pos, stub_pike_try_at_pos)]
+fn c09_iter_pikevm_anchored_n2() {
+    let cr = prog_anchored(vec![Insn::Goal], 0, 0);
+    c09_body!(PikeVMExecutor<Utf8Input>, &cr, true, false, 2);
+    core::mem::forget(cr);
+}
+
+// ---- thorough variants: haystacks of up to 3 characters ----
+// @verif props=C09,C02 tier=thorough timeout=5400 mem=20 unwind=9 bound="haystack <= 3 symbolic scalars, arbitrary engine table, symbolic start, up to 6 next() calls; PikeVMExecutor" funcs="PikeVMExecutor::initial_position,next_match,pikevm::successful_match,exec::Matches::next"
+// @verif stubs="pikevm::MatchAttempter::try_at_pos -> arbitrary deterministic table END[offset]"
+#[kani::proof]
+#[kani::unwind(9)]
+#[kani::stub(crate::pikevm::MatchAttempter::try_at_pos, stub_pike_try_at_pos)]
+fn c09_iter_pikevm_utf8_n3() {
+    let cr = prog(vec![Insn::Goal], 0, 0);
+    c09_body!(PikeVMExecutor<Utf8Input>, &cr, false, false, 3);
+    core::mem::forget(cr);
+}
+
+// @verif props=C09,C02 tier=thorough timeout=5400 mem=20 unwind=9 bound="as c09_iter_pikevm_utf8 with StartPredicate::StartAnchored (engine can only match at 0)" funcs="PikeVMExecutor::next_match (anchored branch)"
+// @verif stubs="pikevm::MatchAttempter::try_at_pos -> table"
+#[kani::proof]
+#[kani::unwind(9)]
+#[kani::stub(crate::pikevm::MatchAttempter::try_at_pos, stub_pike_try_at_pos)]
+fn c09_iter_pikevm_anchored_n3() {
+    let cr = prog_anchored(vec![Insn::Goal], 0, 0);
+    c09_body!(PikeVMExecutor<Utf8Input>, &cr, true, false, 3);
     core::mem::forget(cr);
 }
